@@ -35,6 +35,8 @@ pub struct Ctl {
     pub chunk_pos: usize,
     /// when true, counting/faults/chunking are suspended (harness-side access)
     pub paused: bool,
+    /// when Some: every successful write call is recorded as (offset, length), in order
+    pub wlog: Option<Vec<(u64, u64)>>,
 }
 
 impl Ctl {
@@ -155,6 +157,15 @@ impl Write for SharedBuf {
         let overlap = n.min(data.len() - p);
         data[p..p + overlap].copy_from_slice(&buf[..overlap]);
         data.extend_from_slice(&buf[overlap..n]);
+        drop(data);
+        {
+            let mut c = self.ctl.lock().unwrap();
+            if !c.paused && n > 0 {
+                if let Some(log) = c.wlog.as_mut() {
+                    log.push((self.pos, n as u64));
+                }
+            }
+        }
         self.pos += n as u64;
         Ok(n)
     }
